@@ -65,6 +65,9 @@ func init() {
 		if r.Intn(3) == 0 {
 			c.Then = genWrites(r)
 		}
+		if r.Intn(4) == 0 && !c.NoRoom {
+			c.MidSet = 1 + r.Intn(len(c.Writes)+1)
+		}
 		return c
 	}
 	createExec = func(c CreateCase, choices []int32) RunOut {
@@ -123,7 +126,19 @@ func init() {
 			var want []byte
 			var werr error
 			var cb callerBuf
+			midSet := func() {
+				faults["set-of-another-key-while-the-file-is-open"]++
+				mid := payload(5000, 20)
+				if err := db.Set(w.Ctx, "mid-key", mid); err != nil {
+					fail("error-class", "mid-set", "a Set of another key while the file is open failed: "+err.Error())
+				} else if got, err := db.Get(w.Ctx, "mid-key"); err != nil || !bytes.Equal(got, mid) {
+					fail("lost-write", "mid-set", fmt.Sprintf("a Set of another key while the file is open returned nil; Get -> %d bytes, %v", len(got), err))
+				}
+			}
 			for i, n := range c.Writes {
+				if c.MidSet == i+1 {
+					midSet()
+				}
 				chunk := payload(uint64(i)+1, n)
 				m, err := cb.write(f, chunk)
 				if err != nil {
@@ -134,6 +149,9 @@ func init() {
 					fail("partial-or-mixed-content", "short-write", fmt.Sprintf("Write %d of %d bytes returned %d, nil", i, n, m))
 				}
 				want = append(want, chunk...)
+			}
+			if c.MidSet == len(c.Writes)+1 && werr == nil {
+				midSet()
 			}
 			cerr := f.Close()
 			w.Drain()
